@@ -83,3 +83,20 @@ Example C05_concurrent_nonvacuous :
                    [{| cl_name := 7; cl_prog := [IAcq; ICheck; IReg; IWrite; IWait; IRel] |}]]
                   [0;1;0;0;1;0;9;1;0;0;1;1;1;1;9;1;1]%nat) = [((0, 0), Some (0, 0)); ((1, 0), Some (1, 0))]%nat.
 Proof. vm_compute. auto. Qed.
+
+(* ---------- the dispatch of unsolicited frames, tied to the source ---------- *)
+From AV Require Import Model.Dispatch Gen.GenDispatch Proofs.DispatchP.
+(* the model's on_frame is "ask the RPC layer first, then look the name up in this table" ... *)
+Theorem C05_on_frame_is_the_table : forall s c v f,
+  get_chan (s_chans s) c = Some v -> req_get (c_req v) (f_name f) = None ->
+  on_frame s c f = dispatch expected_content expected_dispatch s c v f.
+Proof. exact on_frame_by_table. Qed.
+Print Assumptions C05_on_frame_is_the_table.
+
+(* ... and the table is the one Channel.on_frame has in the source, regenerated on every run
+   (content frames queued for the consumer; Cancel / CancelOk / ConsumeOk / Return / Close / Flow
+   handled; everything else only logged; the RPC layer asked first) *)
+Theorem C05_source_dispatch_table :
+  list_eqb fname_eqb gen_content expected_content && table_eqb gen_dispatch expected_dispatch = true.
+Proof. vm_compute. reflexivity. Qed.
+Print Assumptions C05_source_dispatch_table.
